@@ -23,8 +23,8 @@ RULE = ("(A) real GAC/LAC POD readers on spec-written passes (20..300 lines, fir
         "corrected times (0.02 degree great-circle), scan positions handed to pyorbital recorded; (C) histories: repeated "
         "get_lonlat/get_times/get_angles/dataset calls, KLM, no table, TLE too old, correction disabled. "
         "A case = (pass, table); non-trivial = non-zero error or a skip configuration")
-ASSUME = ["'missing TLE data' is read as the NoTLEData outcome (no element set within tle_thresh days); an absent TLE file or an unset "
-          "directory raises (configuration error) and is reported as an observation only",
+ASSUME = ["'missing TLE data' = no element set within tle_thresh days, or no TLE file for the spacecraft in the configured directory (both NoTLEData); "
+          "an unset TLE directory raises RuntimeError (configuration error)",
           "float64 vs exact rationals: 1 ms on times, 1e-4 line on the fractional line, 1e-9 s on interpolated errors",
           "pyorbital's propagation is the reference for (B): the harness calls it with its own times and scan positions"]
 TB = ["coqc 8.16.1 kernel; Reals axioms for the slerp lemmas (C09_slerp_*)", "translator/gen.py (Gen_Drift: AST of _adjust_clock_drift / "
@@ -321,6 +321,7 @@ def part_c(res, rng, tier, seed, gen, d):
                                  ("gac_pod", "noaa14", dict(adjust_clock_drift=False), False),
                                  ("gac_pod", "noaa10", {}, False), ("gac_pod", "tirosn", {}, False),
                                  ("gac_pod", "noaa14", dict(tle_thresh=3), False),
+                                 ("gac_pod", "noaa14", dict(tle_dir=d, tle_name="no_such_%(satname)s.txt"), False),
                                  ("gac_klm", "noaa16", {}, False), ("lac_klm", "noaa18", {}, False)):
         st = start if sc not in ("noaa10", "tirosn") else datetime.datetime(1988 if sc == "noaa10" else 1980, 5, 6, 7, 8, 9)
         if "tle_thresh" in kw:
